@@ -107,12 +107,12 @@ type DecArshalPlan struct {
 	FromFunc   bool          `json:"unmarshal_from_func_for_any"`
 	TypedType  string        `json:"typed_target,omitempty"` // a reflect-built random type; the input is Marshal of a random value of it
 
-	typ reflect.Type
-	Legacy     bool          `json:"v1_default_options"` // DefaultOptionsV1 (legacy error semantics: semantic errors are not fatal)
-	V1Ops      []int         `json:"v1_ops,omitempty"` // v1stream route: 0 Decode, 1 Token, 2 More, 3 InputOffset, 4 Buffered
-	V1Number   bool          `json:"v1_use_number,omitempty"`
-	V1Strict   bool          `json:"v1_disallow_unknown_fields,omitempty"`
-	Noop       int           `json:"noop_opts"` // path-switching options that keep semantics: 1 AllowDuplicateNames on dup-free input, 2 declining Unmarshalers for any, 3 both
+	typ      reflect.Type
+	Legacy   bool  `json:"v1_default_options"` // DefaultOptionsV1 (legacy error semantics: semantic errors are not fatal)
+	V1Ops    []int `json:"v1_ops,omitempty"`   // v1stream route: 0 Decode, 1 Token, 2 More, 3 InputOffset, 4 Buffered
+	V1Number bool  `json:"v1_use_number,omitempty"`
+	V1Strict bool  `json:"v1_disallow_unknown_fields,omitempty"`
+	Noop     int   `json:"noop_opts"` // path-switching options that keep semantics: 1 AllowDuplicateNames on dup-free input, 2 declining Unmarshalers for any, 3 both
 }
 
 type DecArshal struct {
